@@ -384,7 +384,8 @@ def analyse(ck):
         if c_pre[1] is None and pre_term[0] == "take":
             cnt_ok = P.norm(pre_term[2]) == ("len", cv.param(2))
         elif c_pre[1] is None:
-            cnt_ok = circ.range_expr(pre_term[1]) is not None and P.norm(circ.range_expr(pre_term[1])[1]) == ("len", cv.param(2))
+            # one per slot: a map over 0..proofs.len(), or over the (padded) proof vector itself
+            cnt_ok = (circ.range_expr(pre_term[1]) is not None and P.norm(circ.range_expr(pre_term[1])[1]) == ("len", cv.param(2))) or P.norm(pre_term[1]) == cv.param(2)
         else:
             pe = [e for e in cv.effects if e.bb == c_pre[0] and e.frame is cv.fr][0]
             cnt_ok = fa[3] == P.norm(pe.result) and P.norm(pe.args[0]) == ("len", cv.param(2))
@@ -409,7 +410,9 @@ def analyse(ck):
         in_body = cbody is not None and any(t_.get("name") == "generate_random_nullifier_preimage" for _, t_ in cbody.calls())
         okg = P.norm(rt[2]) == want_end and len(ns) == 1 and in_body
     else:
-        okg = isinstance(rt, tuple) and rt and rt[0] == "map" and circ.range_expr(rt[1]) is not None and P.const_of(circ.range_expr(rt[1])[0]) == 0 and P.norm(circ.range_expr(rt[1])[1]) == want_end
+        okg = isinstance(rt, tuple) and rt and rt[0] == "map" and (
+            (circ.range_expr(rt[1]) is not None and P.const_of(circ.range_expr(rt[1])[0]) == 0 and P.norm(circ.range_expr(rt[1])[1]) == want_end)
+            or (isinstance(want_end, tuple) and want_end[0] == "len" and P.norm(rt[1]) == want_end[1]))
         inner = [e for e in gv.effects if e.raw.get("name") == "generate_random_nullifier_preimage"]
         okg = okg and len(inner) == 1 and [c for c in inner[0].ctrl if c[0] == "closure" or (c[0] == "loop" and P.norm(c[1]) == P.norm(rt[1]))] != []
     ob.add({"C15"}, okg, "TERM", "preimages/one-call-per-slot", "generate_random_nullifier_preimage is called inside the per-slot closure of (0..n_slots).map(..): every slot gets its own sample", gv.loc0, T.show(rt)[:200])
